@@ -156,3 +156,17 @@ def _state(text, var):
             continue
         st[name] = parse(part[m.end():])
     return st.get(var) if var is not None else st
+
+
+def parse_sim_trace(path):
+    """states of one behaviour file written by `tlc -simulate file=...` -> list of dicts var -> value"""
+    text = open(path).read()
+    out = []
+    for block in re.split(r"(?m)^STATE_\d+ ==\s*$", text)[1:]:
+        block = block.split("\n\n")[0] if False else block
+        # cut at the next comment line (action header) or the closing ====
+        block = re.split(r"(?m)^(?:\\\*|====)", block)[0]
+        st = _state(block, None)
+        if st:
+            out.append(st)
+    return out
